@@ -209,6 +209,7 @@ def shpOf? (j : Json) : Option Shp :=
 def jShp : Shp → Json
   | .arr d => jObj [("arr", jNs d)]
   | .blk bs => jObj [("blk", jArr (bs.map jNs))]
+  | .het bs => jObj [("het", jArr (bs.map jNs))]
 
 def tyOf? (j : Json) : Option Ty := do
   let dt ← (fStr? j "dt").bind dtOf?
